@@ -190,6 +190,10 @@ def p_check(m, H, step, fails):
                     fail("copy-of-deleted", "handle %d (%s): the space its parent was built from is deleted" % (i, h.fullname))
                 elif isinstance(h, Cells) and h.name not in bs[0].cells:
                     fail("copy-of-deleted", "handle %d (%s) is a live dynamic copy of a deleted cells" % (i, h.fullname))
+                elif isinstance(h, Cells) and h.formula.source != bs[0].cells[h.name].formula.source:
+                    # seeded/C13_r3: the copied cells was replaced by one of the same name derived from another base
+                    fail("copy-of-deleted", "handle %d (%s) is a live dynamic copy showing a formula its origin %s does not have any more"
+                         % (i, h.fullname, bs[0].cells[h.name].fullname))
                 elif isinstance(h, DynamicSpace) and not isinstance(h, ItemSpace) and h.name not in bs[0].spaces:
                     fail("copy-of-deleted", "handle %d (%s) is a live dynamic copy of a deleted space" % (i, h.fullname))
         # no survivor mentions a dead object
